@@ -49,6 +49,25 @@ TEXT_ONLY = ["a > b & c", "hello  \nworld", "   ", "plain"]
 # fail late, after part of the output has been produced
 LATE_BAD = ['<!-- c --><svg width="wide"><rect wh="2"/></svg>',
             '<svg><rect wh="2"/><rect wh="3" xy="9 9"/><rect xy="#nowhere|h" wh="1"/></svg>']
+
+
+def limit_docs():
+    """Documents at, just under and over the resource limits: the ones over fail, and a
+    failure must not use up anything (a counter, a budget) of the transforms that follow on the thread."""
+    out = []
+    for n in (40, 90, 95, 96, 97, 98, 99, 100, 101, 150, 400):
+        out.append('<svg><rect wh="{{' + "(" * n + "1" + ")" * n + '}}"/></svg>')
+    for n in (96, 97, 98, 99, 100, 101, 130):
+        out.append("<svg>" + "<g>" * n + '<rect wh="1"/>' + "</g>" * n + "</svg>")
+    for n in (999, 1000, 1001):
+        out.append(f'<svg><loop count="{n}"><rect wh="1"/></loop></svg>')
+    for n in (1023, 1024, 1025):
+        out.append('<svg><var v="' + "x" * n + '"/><rect wh="1"/></svg>')
+    out.append('<svg><var a="$b" b="$a"/><rect wh="$a"/></svg>')
+    out.append('<svg>' + "".join(f'<var v{i}="{{{{$v{i + 1} + 1}}}}"/>' for i in range(120)) + '<var v120="1"/><rect wh="$v0"/></svg>')
+    return out
+
+
 EMPTY_OK = ['<specs><rect id="q" wh="1"/></specs>']
 
 
@@ -85,6 +104,8 @@ def run(rep, tier, seed):
             {"font_size": 5.0}, {"font_family": "serif"}, {"background": "lightyellow"}, {"scale": 2.0}, {"border": 0},
             {"theme": "bold"}, {"theme": "glass"}, {"add_auto_styles": False}, {"svg_style": "max-width: 100%"}, {"seed": 99}]
     keys = [(d, c) for d in docs for c in cfgs]
+    limit_keys = [(d, {}) for d in limit_docs()]
+    keys += limit_keys
     # T measured by fresh library processes (one process per key batch)
     cases = [{"k": f"t{j}", "xml": d, "cfg": c, "str_api": True} for j, (d, c) in enumerate(keys)]
     tres = vlib.run_isolated(cases)      # one fresh process per key: T has no history
@@ -112,6 +133,8 @@ def run(rep, tier, seed):
     seq = [{"k": f"q{j}", "xml": d, "cfg": c, "str_api": True} for j, (d, c) in enumerate(keys)]
     for rnd_round in range(2):
         order = list(seq)
+        # the requests that fail on a limit come several times over
+        order += [{"k": f"x{j}-{i}", "xml": d, "cfg": c} for j, (d, c) in enumerate(limit_keys) for i in range(4)]
         random.Random(seed * 31 + rnd_round).shuffle(order)
         sres = vlib._run_chunk(vlib.build_runner(), order, 60000, 4096)
         for j, (d, c) in enumerate(keys):
@@ -150,10 +173,12 @@ def run(rep, tier, seed):
         if ev["status"] == "fail" and ev["stderr_empty"]:
             rep.violation("frontend:cli:silent-failure", {"xml": vlib.trunc(d, 800), "cfg": c, "mode": mode, "rc": p.returncode})
         ops.append((ev, {"xml": d, "cfg": c, "mode": mode}))
-    for j, (d, c) in enumerate(cli_keys[:6]):
-        ev, p = frontc.run_cli(svgdx, "file-file", d, c, wd, samefile=True)
+    # output = input, by the same name and by every other route to the same file
+    for j, (d, c) in enumerate(cli_keys[:8]):
+        route = [True, "dotdot", "symlink", "relative"][j % 4]
+        ev, p = frontc.run_cli(svgdx, "file-file", d, c, wd, samefile=route)
         ev["key"] = frontc.key_of(d, c)
-        ops.append((ev, {"xml": d, "cfg": c, "mode": "file-file output=input"}))
+        ops.append((ev, {"xml": d, "cfg": c, "mode": f"file-file output=input (route: {route if route is not True else 'same name'})"}))
     shutil.rmtree(wd, ignore_errors=True)
     # (c) the server: concurrent requests against one process
     srv = frontc.Server(server_bin)
